@@ -9,6 +9,8 @@ let rec pos_of_zz (n : ZZ.t) : positive =
 let z_of_zz (n : ZZ.t) : z = if ZZ.sign n = 0 then Z0 else if ZZ.sign n > 0 then Zpos (pos_of_zz n) else Zneg (pos_of_zz (ZZ.neg n))
 let rec zz_of_pos = function XH -> ZZ.one | XO p -> ZZ.shift_left (zz_of_pos p) 1 | XI p -> ZZ.succ (ZZ.shift_left (zz_of_pos p) 1)
 let zz_of_z = function Z0 -> ZZ.zero | Zpos p -> zz_of_pos p | Zneg p -> ZZ.neg (zz_of_pos p)
+let n_of_int (i : int) : n = if i = 0 then N0 else Npos (pos_of_zz (ZZ.of_int i))
+let int_of_n = function N0 -> 0 | Npos p -> ZZ.to_int (zz_of_pos p)
 let rec nat_of_int i = if i <= 0 then O else S (nat_of_int (i - 1))
 let rec int_of_nat = function O -> 0 | S n -> 1 + int_of_nat n
 
@@ -22,6 +24,7 @@ let rd_bool () = rd_int () <> 0
 let rec rd_n k f = if k = 0 then [] else let x = f () in x :: rd_n (k - 1) f
 let rd_zlist () = let k = rd_int () in rd_n k rd_z
 let rd_natlist () = let k = rd_int () in rd_n k rd_nat
+let rd_str () = let k = rd_int () in rd_n k (fun () -> n_of_int (rd_int ()))
 let rd_graph () = let n = rd_int () in rd_n n (fun () -> rd_n n rd_z)
 
 let buf = Buffer.create 256
@@ -32,6 +35,7 @@ let out_nat n = out_int (int_of_nat n)
 let out_bool b = out (if b then "1" else "0")
 let out_zlist l = out_int (List.length l); List.iter out_z l
 let out_natlist l = out_int (List.length l); List.iter out_nat l
+let out_str (s : n list) = out_int (List.length s); List.iter (fun c -> out_int (int_of_n c)) s
 let out_res f = function OutOfFuel -> out "FUEL" | Done x -> f x
 
 let fuel = nat_of_int 100000
@@ -86,6 +90,24 @@ let dispatch op =
   | "sscount" -> let g = rd_graph () in let q = rd_nat () in out_z (count_superstables g q); out_z (det (lap_reduced g q))
   | "greedy" -> let g = rd_graph () in let o = rd_natlist () in let d = rd_zlist () in
       (match greedy g o d with None -> out "fail" | Some (d', s) -> out "ok"; List.iter out_z d'; out ";"; List.iter out_z s)
+  | "txtread" -> (* kind: 0 graph 1 divisor 2 script 3 orientation *)
+      let kind = rd_int () in let s = rd_str () in
+      let out_g names (gs : gstate) = out "ok"; out_int (List.length names); List.iter out_str names; List.iter (fun r -> List.iter out_z r) gs.adj; out ";" in
+      (match kind with
+       | 0 -> (match read_graph s with None -> out "none" | Some (names, gs) -> out_g names gs)
+       | 1 -> (match read_divisor s with None -> out "none" | Some ((names, gs), d) -> out_g names gs; List.iter out_z d)
+       | 2 -> (match read_script s with None -> out "none" | Some ((names, gs), d) -> out_g names gs; List.iter out_z d)
+       | _ -> (match read_orientation s with None -> out "none" | Some ((names, gs), o) -> out_g names gs; List.iter (fun r -> List.iter out_z r) o.dir))
+  | "txtwrite" -> (* kind n names graph payload *)
+      let kind = rd_int () in let n = rd_int () in let names = rd_n n rd_str in let g = rd_graph () in
+      (match kind with
+       | 0 -> out_str (write_graph names g)
+       | 1 -> let d = rd_zlist () in out_str (write_divisor names g d)
+       | 2 -> let d = rd_zlist () in out_str (write_script names g d)
+       | _ -> let c = rd_int () in let init = rd_n c (fun () -> let a = rd_nat () in let b = rd_nat () in (a, b)) in
+              (match oconstruct g init with Ok o -> out_str (write_orientation names g o) | Err -> out "err"))
+  | "nameok" -> let s = rd_str () in out_bool (name_ok s)
+  | "pyint" -> let s = rd_str () in (match py_int s with None -> out "none" | Some z -> out_z z)
   | "game" -> let g = rd_graph () in let d = rd_zlist () in let v = rd_nat () in out_res out_bool (play_game fuel g d v)
   | "strat" -> let g = rd_graph () in let d = rd_zlist () in
       out_res (fun (b, l) -> out_bool b; out_natlist l) (test_strategy fuel g d)
